@@ -71,6 +71,7 @@ static bool usesBeta(TypeOneDRule r){ return r == rule_gaussjacobi || r == rule_
 
 // class of the state: linear transforms are decided per rule (switch statements over the rule enum), the conformal code is rule-independent
 static const Cfg *g_cfg0 = nullptr; // configuration whose history is being explored: recorded in every violation so that --replay re-runs the same history
+static double g_eval_limit = 5.0; // wall-clock limit of the evaluation phase of a conformal+linear state (a normal phase takes milliseconds); 60 s in --replay, so that the driver's confirmation of an expiry is a long-limit run
 static bool g_hang_seen = false; // per configuration: once a watchdog expired, later conformal+linear states skip their evaluation phase
 static std::string ctag(const Cfg &e){ return e.conformal.empty() ? "" : (e.ta.empty() ? "conformal:" : "conformal+linear:"); }
 static std::string pre(const Cfg &e, const char *what){ return "C10:" + ctag(e) + what + ":"; }
@@ -287,8 +288,8 @@ static void check(Ctx &c, const Cfg &E, const TasmanianSparseGrid &G, const Tasm
     if (conf && lin){
         // every x-taking call runs the library's Newton inverse of the conformal map, which has no iteration cap: watchdog child
         if (g_hang_seen){ c.skipped++; return; }
-        vf::Outcome o = vf::run_child([&](int fd){ Ctx cc; cc.unit = c.unit; cp = &cc; g_signew.clear(); eval_phase(); vf::wr(fd, pack(cc)); }, 5.0);
-        if (o.kind == vf::Outcome::TIMEOUT){ g_hang_seen = true; c.outcomes["conformal+linear:hang:" + fam]++; rep(pre(E, "hang") + tag, "an x-taking call (getInterpolationWeights / evaluate / evaluateHierarchicalFunctions at interior probes and grid points) does not return within 5 s (Newton inverse of the conformal map)"); return; }
+        vf::Outcome o = vf::run_child([&](int fd){ Ctx cc; cc.unit = c.unit; cp = &cc; g_signew.clear(); eval_phase(); vf::wr(fd, pack(cc)); }, g_eval_limit);
+        if (o.kind == vf::Outcome::TIMEOUT){ g_hang_seen = true; c.outcomes["conformal+linear:hang:" + fam]++; rep(pre(E, "hang") + tag, "an x-taking call (getInterpolationWeights / evaluate / evaluateHierarchicalFunctions at interior probes and grid points) does not return within the watchdog (5 s, 60 s when replayed alone) (Newton inverse of the conformal map)"); return; }
         if (o.kind != vf::Outcome::OK || !merge(c, o.out)){ rep(pre(E, "crash") + tag, o.describe() + ": " + ((o.kind == vf::Outcome::SANITIZER) ? o.sanitizer_class() : "") + " " + o.err.substr(0, 800)); return; }
     }else eval_phase();
 }
@@ -398,11 +399,11 @@ int main(int argc, char **argv){
     vf::Args A(argc, argv);
     g_tier = A.get("--tier", "quick");
     double dl = A.getd("--deadline", 0); if (dl > 0) vf::g_deadline = vf::now() + dl;
-    if (A.has("--replay")) return run_replay("C10", A.get("--replay"), HIST_ALL, explore_cfg, 120.0);
+    if (A.has("--replay")){ g_eval_limit = 60.0; return run_replay("C10", A.get("--replay"), HIST_ALL, explore_cfg, 360.0); }
     auto U = units();
     if (A.has("--list")){ size_t n = 0; for(auto &u : U){ printf("%s %zu\n", u.name.c_str(), u.cfgs.size()); n += u.cfgs.size(); } printf("total %zu\n", n); return 0; }
     std::string bound = std::string("C10 lattice tier=") + g_tier + ": canonical-domain classes [-1,1] (global nested/non-nested, sequence, local polynomial, wavelet), Fourier, Laguerre, Hermite, Chebyshev 1/2, Gegenbauer, Jacobi; dims <= " +
         (g_tier == "thorough" ? "3" : "2") + "; (a,b) alphabet {none, 3 vectors}; conformal {none, (1..), (3..), (2,4,1)/(6)}; histories of 6-8 transitions (set, load, change, clear, conformal set/clear, set again, write/read x2)";
-    run_all("C10", U, (int) A.geti("--workers", 8), bound, HIST_ALL, explore_cfg, 60.0);
+    run_all("C10", U, (int) A.geti("--workers", 8), bound, HIST_ALL, explore_cfg, 90.0);
     return 0;
 }
